@@ -799,7 +799,7 @@ def lattice_items(chk):
     outlines that (R) replays, as build_trace items, and the counts."""
     thorough = chk.tier == "thorough"
     cfg = "MC_PenProto_thorough" if thorough else "MC_PenProto"
-    r = chk.tlc("MC_PenProto", cfg=cfg, label="MC_PenProto exhaustive", timeout=2400 if thorough else 900, workers=WORKERS,
+    r = chk.tlc("MC_PenProto", cfg=cfg, label="MC_PenProto exhaustive", timeout=3600 if thorough else 1800, workers=WORKERS,
                 env={"JAVA_TOOL_OPTIONS": "-Xss32m"})
     # TLC's workers print in scheduling order: sort, so that the seeded sample below is the same on every run
     outlines = sorted(gen_outlines(r.stdout), key=lambda o: json.dumps(o, separators=(",", ":")))
@@ -810,7 +810,7 @@ def lattice_items(chk):
     # deeper behaviours of the same machine by simulation (bigger lattice, more points, longer sequences)
     sim = chk.tlc("MC_PenProto", cfg="MC_PenProto_sim", label="MC_PenProto simulate",
                   simulate="num=%d" % (8000 if thorough else 1200), depth=30, workers=1,
-                  timeout=1500 if thorough else 300, env={"JAVA_TOOL_OPTIONS": "-Xss32m"})
+                  timeout=2400 if thorough else 900, env={"JAVA_TOOL_OPTIONS": "-Xss32m"})
     known = set(json.dumps(o, separators=(",", ":")) for o in outlines)
     deep = [o for o in gen_outlines(sim.stdout) if json.dumps(o, separators=(",", ":")) not in known]
     chk.log("simulation: %d further outlines, %.0fs" % (len(deep), sim.wall))
